@@ -104,8 +104,9 @@ var Snaps = []Snap{
 	{Name: "0:base", Brokers: brks(1, 2), Ctrl: 1, Topics: []Topic{
 		{Name: "t", Parts: []Part{ok(0, 1, i32(1, 2), i32(1, 2), nil), ok(1, 2, i32(2, 1), i32(2), nil)}},
 		{Name: "u", Parts: []Part{ok(0, 2, i32(2), i32(2), nil)}}}},
+	// (the response lists t's partitions as 2, 0, 1: the protocol promises no order, Partitions() must sort)
 	{Name: "1:t-grows", Brokers: brks(1, 2), Ctrl: 1, Topics: []Topic{
-		{Name: "t", Parts: []Part{ok(0, 1, i32(1, 2), i32(1, 2), nil), ok(1, 2, i32(2, 1), i32(2), nil), ok(2, 1, i32(1), i32(1), nil)}},
+		{Name: "t", Parts: []Part{ok(2, 1, i32(1), i32(1), nil), ok(0, 1, i32(1, 2), i32(1, 2), nil), ok(1, 2, i32(2, 1), i32(2), nil)}},
 		{Name: "u", Parts: []Part{ok(0, 2, i32(2), i32(2), nil)}}}},
 	{Name: "2:t-shrinks+leader-moves", Brokers: brks(1, 2), Ctrl: 1, Topics: []Topic{
 		{Name: "t", Parts: []Part{ok(0, 2, i32(2, 1), i32(2), nil)}},
@@ -155,7 +156,7 @@ var Snaps = []Snap{
 		{Name: "u", Parts: []Part{ok(0, 2, i32(2), i32(2), nil)}}}},
 	{Name: "18:replica-details-change+u-grows", Brokers: brks(1, 2), Ctrl: 1, Topics: []Topic{
 		{Name: "t", Parts: []Part{ok(0, 1, i32(1, 2, 3), i32(1), i32(3)), ok(1, 2, i32(2), i32(2), nil)}},
-		{Name: "u", Parts: []Part{ok(0, 2, i32(2, 1), i32(2, 1), nil), ok(1, 1, i32(1), i32(1), nil), ok(2, 2, i32(2), i32(2), nil)}}}},
+		{Name: "u", Parts: []Part{ok(1, 1, i32(1), i32(1), nil), ok(2, 2, i32(2), i32(2), nil), ok(0, 2, i32(2, 1), i32(2, 1), nil)}}}},
 	{Name: "19:other-brokers-no-topics-no-controller", Brokers: brks(2, 3), Ctrl: -1, Topics: nil},
 	{Name: "20:t/1-REPLICA_NOT_AVAILABLE", Brokers: brks(1, 2), Ctrl: 2, Topics: []Topic{
 		{Name: "t", Parts: []Part{ok(0, 1, i32(1, 2), i32(1, 2), nil), {ID: 1, Leader: 2, Rep: i32(2, 3), Isr: i32(2), Err: EReplicaNA}}},
